@@ -71,22 +71,56 @@ def drive(ctx, kind, eps, seq, tag):
     ar = make_archive(kind, eps)
     offered = []
     evict2 = dup = False
-    for step, c in enumerate(seq):
+    # every public way of offering solutions: add(), append(), += one, and whole batches through extend() / += with a list, a tuple
+    # or something that can be walked only once
+    er = ctx.rng("entry", tag, repr(seq)[:200])
+    mixed_entry = er.random() < 0.3
+    step = -1
+    while step + 1 < len(seq):
+        step += 1
+        c = seq[step]
         ind = _ind(c)
         before = list(ar)
+        how = "add"
+        batch = [ind]
+        if mixed_entry:
+            how = er.choice(["add", "add", "add", "append", "iadd_one", "extend", "iadd_many"])
+            if how in ("extend", "iadd_many"):
+                k_ = er.randint(1, 5)
+                batch = [ind] + [_ind(c2) for c2 in seq[step + 1:step + k_]]
+                step += len(batch) - 1
         try:
-            ret = ar.add(ind)
+            if how == "add":
+                ret = ar.add(ind)
+            elif how == "append":
+                ret = None
+                ar.append(ind)
+            elif how == "iadd_one":
+                ret = None
+                ar += ind
+            else:
+                ret = None
+                kind_ = er.choice(["list", "tuple", "iterator", "generator"])
+                arg_ = list(batch) if kind_ == "list" else tuple(batch) if kind_ == "tuple" else iter(batch) if kind_ == "iterator" else (b_ for b_ in batch)
+                ctx.count("batches_offered_as_" + kind_)
+                if how == "extend":
+                    ar.extend(arg_)
+                else:
+                    ar += arg_
         except Exception as e:
-            ctx.violation("add/exception", "Archive.add raised %r" % e, {"kind": kind, "eps": eps, "seq": seq[:step + 1]})
+            ctx.violation("add/exception", "Archive.%s raised %r" % (how, e), {"kind": kind, "eps": eps, "seq": seq[:step + 1]})
             return None
-        ctx.count("add_calls")
-        offered.append(norm(c))
+        ctx.count("add_calls", len(batch))
+        if how != "add":
+            ctx.count("solutions_offered_through_" + how, len(batch))
+        for b_ in batch:
+            offered.append(norm(b_.costs_signed))
         model = oracles.nd_set(offered)
         got = [norm(x) for x in content(ar)]
         member = any(x is ind for x in ar)
         wit = lambda: {"comparator": kind, "eps": eps, "offered": seq[:step + 1], "archive": content(ar),
-                       "model": sorted(model), "returned": ret}
-        if bool(ret) != member:
+                       "model": sorted(model), "returned": ret, "entry_point": how}
+        if how == "add" and bool(ret) != member:
             ctx.violation("add/return_value", "add() returned %r but the offered solution is %sa member"
                           % (ret, "" if member else "not "), wit())
             return None
@@ -105,9 +139,9 @@ def drive(ctx, kind, eps, seq, tag):
         gone = [x for x in before if not any(x is y for y in ar)]
         if len(gone) >= 2:
             evict2 = True
-        if not ret and norm(c) in set(got):
+        if how == "add" and not ret and norm(c) in set(got):
             dup = True
-        for x in gone + ([] if member else [ind]):
+        for x in gone + [b_ for b_ in batch if not any(y is b_ for y in ar)]:
             cx = norm(x.costs_signed)
             if not any(g == cx or oracles.odom(g, cx) == 1 for g in got):
                 ctx.violation("add/lost_without_dominator", "a rejected/evicted solution is neither dominated by nor "
